@@ -159,11 +159,15 @@ func genC08(seed int64, tier string) *Scenario {
 			m := []string{"completion", "hover", "definition", "references", "documentSymbol", "signatureHelp", "highlight"}[r.Intn(7)]
 			sc.Ops = append(sc.Ops, Op{Kind: "req", Method: m, Path: n, Pos: &Pos{r.Intn(4), r.Intn(10)}})
 		case k < 20 && anomalies:
-			switch r.Intn(3) {
+			switch r.Intn(4) {
 			case 0: // duplicate / spurious event
 				sc.Ops = append(sc.Ops, Op{Kind: "event", Path: n})
 			case 1: // batch delivery of whatever is queued, together with a no-op change of another file
 				sc.Ops = append(sc.Ops, Op{Kind: "touchq", Path: names[r.Intn(len(names))]}, Op{Kind: "deliver", N: 1 + r.Intn(3)})
+			case 2: // delete + re-create in one batch (atomic save by rename, checkout)
+				if exists[n] && !open[n] {
+					sc.Ops = append(sc.Ops, Op{Kind: "fsremove", Path: n}, Op{Kind: "fswrite", Path: n, Data: Bytes(c08Content(r, n))}, Op{Kind: "deliver"})
+				}
 			default: // write twice and delete before the first event is delivered
 				if !open[n] {
 					sc.Ops = append(sc.Ops, Op{Kind: "fswrite", Path: n, Data: Bytes(c08Content(r, n))}, Op{Kind: "fsremove", Path: n})
